@@ -357,3 +357,37 @@ def codec_e(ctx, rule="CODEC-E"):
                       "%s interns %s without excluding the empty string: a live pool entry of length 0 is written, which the reader takes for the "
                       "long-string escape (reopen fails or mis-parses the pool)" % (short(f.name), a), f.loc(t["sp"]), fn=f.name, key="%s|%s" % (rule, short(f.name)))
     ctx.floor(rule, "callers of StringPool::incref", n, 1)
+
+
+def pool_load(ctx, rule="POOL-LOAD"):
+    """every pool entry consumes its bytes and occupies one slot (C01, C02, C08)"""
+    from .loops import cycle_without
+    prog = ctx.prog
+    ctx.rule(rule, "StringPoolBuilder::build_from_data: in every iteration over the (length, refcount) entries exactly `length` bytes are read from _StringData (read_exact, "
+                   "propagated) and exactly one entry is pushed, whatever the refcount: string references are 1-based positions and the data stream is the concatenation of ALL "
+                   "entries, so skipping the read or the slot of an unused entry shifts every later string")
+    f = prog.fn(SP + "StringPoolBuilder::build_from_data")
+    S = Sym(prog, f)
+    loops = cfg.natural_loops(f)
+    nx = [(b, t) for b, t in f.calls() if (t.get("callee") or "").endswith("Iterator::next") and "lengths_and_refcounts" in S.val(t["args"][0])]
+    rd = {b for b, t in f.calls() if (t.get("callee") or "").endswith("Read::read_exact")}
+    ps = {b for b, t in f.calls() if (t.get("callee") or "").endswith("Vec::<T, A>::push") and "String" in (t.get("written") or "") + f.locals[t["args"][0]["pl"]["l"]]}
+    body = [(h, bl) for h, bl in loops.items() if nx and nx[0][0] in bl]
+    if not ctx.check(len(nx) == 1 and body and rd and ps, rule, "loop over the pool entries", "", "build_from_data has no loop over lengths_and_refcounts with a read_exact and a push "
+                     "(next %d, read_exact %d, push %d)" % (len(nx), len(rd), len(ps)), f.loc(), fn=f.name, key=rule + "|anchor"):
+        return
+    h, bl = min(body, key=lambda x: len(x[1]))
+    # error exits leave the loop; among the cycles that come back to the header, none may avoid the read or the push
+    ok_r = not cycle_without(f, h, bl, rd & bl)
+    ok_p = not cycle_without(f, h, bl, ps & bl)
+    ctx.check(ok_r, rule, "every entry's bytes are consumed", "", "an iteration of build_from_data can complete without read_exact: the text of every later entry is decoded from the wrong offset",
+              f.loc(), fn=f.name, key=rule + "|read")
+    ctx.check(ok_p, rule, "every entry keeps its slot", "", "an iteration of build_from_data can complete without pushing an entry: every later string reference points one slot off",
+              f.loc(), fn=f.name, key=rule + "|slot")
+    # and the pushed text is what was read, the pushed count is the entry's refcount
+    for b, t in f.calls():
+        if b in ps:
+            v = S.val(t["args"][1])
+            cond = [e[:60] for (e, tr, g) in S.bool_facts_at(b) if isinstance(tr, bool)]
+            ctx.check(("CodePage::decode(" in v or "decode" in v) and not cond, rule, "the slot holds the decoded text, unconditionally", v[:100],
+                      "build_from_data pushes %s under the condition %s: entries are stored differently depending on their content" % (v[:80], cond), f.loc(t["sp"]), fn=f.name, key=rule + "|value")
